@@ -348,7 +348,7 @@ fn process_violation(w: &mut World, property: &str, seed: u64, cfg: &GenCfg, rep
     let (minp, minv, tries) = minimise(w, &base, &v);
     let lr = run_once(w, &minp, true);
     let _ = std::fs::create_dir_all(replay_dir);
-    let path = format!("{}/{}-{}-{}{}.json", replay_dir, property, seed, if vidx < 0 { "selfcheck" } else { "run" }, vidx.max(0));
+    let path = format!("{}/{}-{}-{}{}.json", replay_dir, property, seed, if vidx < 0 { "selfcheck" } else { "run" }, if vidx < 0 { -vidx - 1 } else { vidx });
     let write = |plan: &SchedPlan, prelude: &[u64], v: &SViolation, log: &[String]| {
         let rj = replay_json(property, seed, vidx, cfg, plan, &base, prelude, v, log);
         if let Err(e) = std::fs::write(&path, crate::util::with_knob(rj).pretty()) {
@@ -481,7 +481,8 @@ pub fn cmd_sched(m: &HashMap<String, String>) -> i32 {
     // ---- sequential self-check: the whole catalogue forward and in reverse on one thread
     if selfcheck {
         let cat = crate::sched::catalogue(&cfg);
-        for (name, order) in [("forward", cat.clone()), ("reverse", cat.iter().rev().cloned().collect::<Vec<Op>>())] {
+        let neigh = crate::sched::neighbour_catalogue(&cfg);
+        for (name, order) in [("forward", cat.clone()), ("reverse", cat.iter().rev().cloned().collect::<Vec<Op>>()), ("neighbours", neigh)] {
             let plan = SchedPlan {
                 focus: focus.clone(),
                 threads: vec![ThreadPlan { ops: order, ..Default::default() }],
@@ -500,7 +501,40 @@ pub fn cmd_sched(m: &HashMap<String, String>) -> i32 {
                 if known.iter().any(|k| *k == v.class()) {
                     counters.inc(&format!("known_finding_hit|{}", v.class()));
                 } else if confirmed.is_none() {
-                    let (vj, ok) = process_violation(&mut w, &property, seed, &cfg, &replay_dir, &done_indices, -1, &plan, &r);
+                    let (vj, ok) = process_violation(&mut w, &property, seed, &cfg, &replay_dir, &done_indices, -(1 + shard as i64), &plan, &r);
+                    if ok {
+                        confirmed = Some(vj);
+                    } else {
+                        unconfirmed.push(vj);
+                    }
+                }
+            }
+        }
+    }
+
+    // ---- C02: every path x every hand-made scalar of this shard's residue class, on one thread
+    if focus == "wnaf" && !cfg.fresh && cfg.wide == 0 && cfg.long == 0 && cfg.max_window <= 16 && confirmed.is_none() {
+        let sweep = crate::sched::scalar_sweep(shard as usize, of as usize, cfg.with_256);
+        for chunk in sweep.chunks(400) {
+            let plan = SchedPlan {
+                focus: focus.clone(),
+                threads: vec![ThreadPlan { ops: chunk.to_vec(), ..Default::default() }],
+                views_b: vec![(1, 3, 4), (1, 4, 9), (2, 3, 4)],
+                views_s: vec![(1, 6), (1, 20), (2, 6)],
+                nshared_ctx: 2,
+                yield_mask: 0,
+                schedule: Schedule::Sequential,
+            };
+            let r = run_once(&mut w, &plan, false);
+            counters.merge(&r.counters);
+            counters.add("scalar_sweep_ops", r.ops_run as u64);
+            dg.u64(r.digest);
+            ops += r.ops_run as u64;
+            if let Some(v) = &r.violation {
+                if known.iter().any(|k| *k == v.class()) {
+                    counters.inc(&format!("known_finding_hit|{}", v.class()));
+                } else if confirmed.is_none() {
+                    let (vj, ok) = process_violation(&mut w, &property, seed, &cfg, &replay_dir, &done_indices, -(1 + shard as i64), &plan, &r);
                     if ok {
                         confirmed = Some(vj);
                     } else {
